@@ -293,8 +293,9 @@ class GLRParser(Parser):
 
                     new_results = [parent] + results
 
-                    if last_parent is None:
-                        last_parent = parent
+                    # The rightmost link of this particular path. Must not
+                    # leak to the paths through the sibling links.
+                    path_last_parent = parent if last_parent is None else last_parent
 
                     traversed = traversed or (
                         update_parent and update_parent.head == node
@@ -306,7 +307,7 @@ class GLRParser(Parser):
                                 parent.root,
                                 new_results,
                                 length,
-                                last_parent,
+                                path_last_parent,
                                 traversed,
                             )
                         )
@@ -317,7 +318,7 @@ class GLRParser(Parser):
                             production,
                             NodeNonTerm(None, new_results, production=production),
                             parent.start_position,
-                            last_parent.end_position,
+                            path_last_parent.end_position,
                         )
 
     def _reduce(
